@@ -87,3 +87,18 @@ Definition external_names (f : oformat) (st : xstate) : list Z :=
 
 Definition exported_names (names_of : nat -> list Z) (f : oformat) (export_kw : bool) (aliases : list Z) (dyn : list nat) : list Z :=
   external_names f (run_entry names_of (entry_stmts f export_kw aliases dyn)).
+
+(* ---- the interop flag of __toESM ---- *)
+(* js_printer.printRequireOrImportExpr prints "__toESM(require_x(), 1)" (isNodeMode) exactly when the
+   importing file is ESM-typed (p.moduleType.IsESM(): .mjs/.mts or package.json "type": "module"),
+   whatever the form of the import (import statement with or without default / namespace, import()) *)
+Inductive import_form := IFStatement (star_or_default : bool) | IFDynamic.
+Definition to_esm_node_mode (importer_esm_typed : bool) (form : import_form) : bool := importer_esm_typed.
+
+(* runtime.go __toESM: what "default" of the namespace is, for a CommonJS module with or without
+   the __esModule marker *)
+Inductive default_value := ModuleExports | ExportsDefault.
+Definition to_esm_default (node_mode has_marker : bool) : default_value :=
+  if node_mode || negb has_marker then ModuleExports else ExportsDefault.
+(* node: the default export of a CommonJS module is always module.exports *)
+Definition native_default : default_value := ModuleExports.
